@@ -213,6 +213,8 @@ def main(argv=None):
             solver=dict(queries=st_.get("queries", 0), sat=st_.get("sat", 0), unsat=st_.get("unsat", 0),
                         unknown=st_.get("unknown", 0), solver_s=round(st_.get("solver_s", 0.0), 2),
                         engine="z3 %s" % __import__("z3").get_version_string()),
+            float64_second_stage=dict(assertions_rechecked_bit_precisely=total["fp_checked"], unsat=total["fp_unsat"],
+                                      sat=total["fp_sat"], other=total["fp_other"], solver_s=round(total["fp_solver_s"], 1)),
             proxy_selftest=dict(cases=st["cases"], failures=0),
             repo_files=loader.file_hashes(),
             errors=total["errors"],
